@@ -264,24 +264,46 @@ def menger(rc: RuleCtx, rule_range: Optional[str], rule_crit: Optional[str]):
         for sub_ in ast.walk(post[0]):
             fi.module.node_scope[id(sub_)] = fi.scope
     # after the loop the list is  <what it held before> + <one value per visited i>: a marker stands for the interior block
-    MARK = ev.symbol("interior-curvatures", True)
+    # (a generator block of n-2 values, so that len() of the list is n and not the number of pieces)
+    from ..seqdom import mk_gen, var_symbol
+    _blk = mk_gen(0, C(0), sym("n") - C(2), C(1), [(TRUE, anf.opaque("at", ev.symbol("interior-curvatures", True), var_symbol(0), array=False), False)])
+    MARK = ev.to_rat(_blk)
     fr2 = Frame(ev, fi, 0)
     penv = dict(env)
-    penv[L] = Vec(list(head.items) + [MARK], "list")
+    penv[L] = Vec(list(head.items) + [_blk], "list")
     fr2.block(post, penv, TRUE)
     rets = fr2.returns
     pad_ok = False
     ret_ok = False
     pad = None
+    last_pick = None
+    sp = None
     if len(rets) == 1 and isinstance(rets[0][1], Rat):
-        a = single_atom(rets[0][1])
-        ret_ok = a is not None and a.name == "argmax" and rets[0][1].equals(Rat.from_atom(a))
-        if ret_ok:
-            va = single_atom(a.args[0])
+        # the returned index, by value: the position in the padded vector of the optimum found by a scan over a view of
+        # it; np.argmax keeps the first optimum of what it scans - the lowest position of a forward view, the highest
+        # of a reversed one
+        from ..intervals import scanned_positions
+
+        def _len(v_):
+            va_ = single_atom(v_)
+            if va_ is not None and va_.name == "vec" and len(va_.args) == 3 and va_.args[1].equals(MARK):
+                return sym("n")
+            return ev.length_of(v_)
+        sp = scanned_positions(rets[0][1], _len)
+        if sp is not None and sp[4] == "argmax":
+            base_, p_lo, p_hi, maps_back, _nm, rev_ = sp
+            va = single_atom(base_)
             if va is not None and va.name == "vec" and len(va.args) == 3 and va.args[1].equals(MARK) \
                     and va.args[0].is_const() is not None and va.args[0].equals(va.args[2]):
                 pad_ok = True
                 pad = va.args[0]
+            whole = p_lo.is_zero() and p_hi.equals(sym("n") - C(1))
+            inner = p_lo.is_const() is not None and 0 <= p_lo.is_const() <= 1 and p_hi.equals(sym("n") - C(2))
+            if maps_back and (inner or (whole and not rev_)):
+                ret_ok = True
+            elif maps_back and whole and rev_ and pad_ok:
+                last_pick = "the scan runs over the reversed vector, so of several equal maxima the one at the highest position is returned: with every interior " \
+                            "curvature equal to the pad (a straight segment) that is the last index n-1"
     one_app = len(apps) == 1 and apps[0].guard.kind == "true"
     # the loop position may be offset from the index of the middle point (zip of shifted slices): re-centre on the middle point
     delta = C(0)
@@ -304,6 +326,11 @@ def menger(rc: RuleCtx, rule_range: Optional[str], rule_crit: Optional[str]):
     if rule_range:
         if pad_ok and range_ok and one_app and ret_ok:
             res.ok(rule_range, "menger.knee", "argmax over [pad] + n-2 interior values + [same pad]: the first maximum is never the last index => index in [0, n-2]")
+        elif last_pick is not None:
+            res.violation(rule_range, fi.module, fi.name, fi.node, "the Menger detector can return the last index: " + last_pick, _short(rets[0][1], 160),
+                          "the first maximum of [0] + interior + [0] (never the last position)", construct="menger range")
+        elif not ret_ok and (len(rets) != 1 or not isinstance(rets[0][1], Rat) or sp is None):
+            raise AnalysisError("menger.knee: the returned index is not an argmax over (a view of) the padded curvature vector - shape not recognised")
         else:
             res.violation(rule_range, fi.module, fi.name, fi.node,
                           "the Menger detector can return the last index: the curvature vector is not [c] + (one value per interior point) + [c] followed by argmax",
